@@ -50,7 +50,8 @@ def rule_token_items(ctx, facts, rule, fields=("trace_id", "parent_id", "collect
     ctx.floor(rule, TOKEN_ITEM, len(cons), 3, "constructions of CollectTokenItem")
     for fn, b, s, f in cons:
         # values computed before a `.map(|item| ..)` and captured by it keep their source
-        o = {k: data_origins(prov.resolve_upvars(fn, prov.of_operand(fn, v)) if fn.kind == "Closure" else prov.of_operand(fn, v)) for k, v in f.items()}
+        o = {k: data_origins(prov.resolve_upvars(fn, prov.of_operand(fn, v)) if fn.kind == "Closure" else prov.resolve_self_fields(fn, prov.of_operand(fn, v)))
+             for k, v in f.items()}
         site = fn.loc(b)
         if fn.path == "fastrace::span::Span::root":
             if "trace_id" in fields:
